@@ -851,6 +851,63 @@ def attrstride(run, rule='GROWTH'):
                           'last cell of every slot (the debug counter freeSlot increments) is the first user attribute of the next slot' if cfg != 'Q0' else ''))
 
 
+def segctor_exec(run, fx):
+    """GROWTH: Segment::newSlot carves a block of m_bufSize slots and indexes newSlots[m_bufSize - 1]: it must never run with
+    m_bufSize == 0.  The constructor of Segment is interpreted (rules/ordint.py; member initialisers and body from its own CFG, the
+    bit helpers from bits.h) for texts of 0, 1, 2, 5 and 64 characters: at the moment of its own newSlot() call m_bufSize is at least
+    1.  (The block size of LATER blocks, log2(n) + 1, wraps to 0 for an empty text; that value may only be stored after the first block
+    exists -- an empty segment never needs a second one.)"""
+    from . import ordint as O
+    PG = 'graphite2::Segment::'
+    ctors = [f for f in fx.fns_named('graphite2::Segment::Segment') if not f.f.get('implicit') and len(f.f.get('params') or []) == 4]
+    inst = 'the constructor\'s own newSlot() call sees a block size of at least one (interpreted)'
+    if len(ctors) != 1:
+        run.broken('GROWTH', inst, 'Segment::Segment(numchars, face, script, dir) not found')
+        return
+    fn = ctors[0]
+    grec = fx.record('graphite2::Segment')
+    cases = 0
+    try:
+        for n in (0, 1, 2, 5, 64):
+            seg = O.Rec()
+            for f in grec['fields']:
+                seg[PG + f['n']] = None
+            seen = []
+
+            def newslot(I, f, e, obj, a, seen=seen):
+                seen.append(obj[PG + 'm_bufSize'])
+                return O.Ptr(O.Rec({'#slot': 1}))
+            nat = {'graphite2::Segment::newSlot': newslot, 'graphite2::Segment::freeSlot': lambda I, f, e, obj, a: None,
+                   'graphite2::Face::chooseSilf': lambda I, f, e, obj, a: O.Ptr(O.Rec({'#silf': 1})),
+                   'graphite2::Silf::flags': lambda I, f, e, obj, a: 0, 'graphite2::Silf::aPassBits': lambda I, f, e, obj, a: 0,
+                   'graphite2::CharInfo::CharInfo': lambda I, f, e, obj, a: O.Rec(),
+                   '__builtin_popcount': lambda I, f, e, obj, a: bin(I.rv(a[0]) & 0xFFFFFFFF).count('1'),
+                   '__builtin_popcountl': lambda I, f, e, obj, a: bin(I.rv(a[0]) & 0xFFFFFFFFFFFFFFFF).count('1'),
+                   '__builtin_popcountll': lambda I, f, e, obj, a: bin(I.rv(a[0]) & 0xFFFFFFFFFFFFFFFF).count('1'),
+                   'graphite2::Vector<graphite2::Slot *>::Vector': lambda I, f, e, obj, a: O.Vec(),
+                   'graphite2::Vector<short *>::Vector': lambda I, f, e, obj, a: O.Vec(),
+                   'graphite2::Vector<graphite2::SlotJustify *>::Vector': lambda I, f, e, obj, a: O.Vec(),
+                   'graphite2::Vector<graphite2::FeatureVal>::Vector': lambda I, f, e, obj, a: O.Vec()}
+            it = O.Interp(fx, natives=nat)
+            it.MAX_STEPS = 6000
+            cases += 1
+            it.call(fn, seg, [n, O.Ptr(O.Rec({'#face': 1})), 0, 0])
+            if len(seen) != 1:
+                run.broken('GROWTH', inst, 'the constructor calls newSlot() %d times for a text of %d characters' % (len(seen), n), fn.where())
+                return
+            if not isinstance(seen[0], int) or seen[0] < 1:
+                run.violated('GROWTH', inst, fn.where(), 'for a text of %d character(s) Segment::Segment calls newSlot() while m_bufSize is %r: newSlot allocates zero slots and writes newSlots[m_bufSize - 1], '
+                             'in front of a zero-byte block (gr_make_seg with nChars = 0)' % (n, seen[0]))
+                return
+    except O.Violation as v:
+        run.violated('GROWTH', inst, fn.where(), '%s (%s)' % (v.what, v.loc))
+        return
+    except AnalysisBroken as ex:
+        run.broken('GROWTH', inst, str(ex), fn.where())
+        return
+    run.held('GROWTH', inst, fn.where(), '%d abstract executions' % cases)
+
+
 def run(run):
     vm = R.get_vm(run)
     fx = vm.fx
@@ -862,11 +919,23 @@ def run(run):
     slotref(run, vm)
     userattr(run, fx)
     growth(run, vm)
+    segctor_exec(run, fx)
     if not run.cfg_tag:
         attrstride(run)
     from . import c18 as c18_
     c18_.applyval_exec(run, fx, 'GROWTH')        # SET_FEAT grows the segment's feature words through applyValToFeature: no store behind the block (shared with C18)
     const_(run, vm)
+    from . import validators as validators_
+    validators_.check(run, fx, 'CONST')            # 'whatever ... state tables, classes or glyph attributes the accepted font contains': the loader's tabled rejections are what the run-time indexing relies on (shared with C01)
+    try:
+        from . import c04 as c04_
+        cases_, bad_ = c04_.listops_exec(run, fx)          # a sibling chain that becomes cyclic makes setAttr / finalise walk for ever (shared with C04)
+        if bad_:
+            run.violated('RECURSION', 'child / removeChild on every small chain (interpreted)', fx.one('graphite2::Slot::child').where(), bad_)
+        else:
+            run.held('RECURSION', 'child / removeChild on every small chain (interpreted)', fx.one('graphite2::Slot::child').where(), '%d abstract executions' % cases_)
+    except AnalysisBroken as ex:
+        run.broken('RECURSION', 'child / removeChild on every small chain (interpreted)', str(ex), '')
     recursion(run, fx)
     looplimit(run, fx)
     from . import ordint as O_
